@@ -153,6 +153,10 @@ type Unit struct {
 	knownLits     map[string]*litInfo
 	inputConst    string
 	inputKind     string
+	ghosts        map[string]types.Object
+	heapSorts     map[string]Sort
+	preHeaps      map[string]Sort
+	setupDone     bool
 }
 
 func (u *Unit) note(s string) {
@@ -228,6 +232,12 @@ func (u *Unit) exprText(e ast.Node) string {
 func (u *Unit) heap(env *Env, name string, sort Sort) Term {
 	if h, ok := env.heaps[name]; ok {
 		return h
+	}
+	u.heapSorts[name] = sort
+	if u.preHeaps != nil && u.setupDone {
+		if _, known := u.preHeaps[name]; !known {
+			unsup("heap %s first touched in the second pass", name)
+		}
 	}
 	// first touch: this heap has been unchanged since entry; create the entry heap constant
 	cname := "H0_" + name
@@ -345,7 +355,7 @@ func (u *Unit) sliceSet(env *Env, s Term, elem Sort, i Term, v Term) {
 
 // introduce a definition (keeps terms small)
 func (u *Unit) define(env *Env, hint string, t Term) Term {
-	if len(t.S) < 40 {
+	if len(t.S) < 40 || u.inClosure > 0 {
 		return t
 	}
 	c := u.D.Fresh(hint, t.Sort)
@@ -1285,6 +1295,7 @@ func (u *Unit) execFor(st *ast.ForStmt, env *Env, label string) []Outcome {
 	}
 	u.checkInvariants(env, blk, "inv-init", st.Pos(), lname)
 	li := u.scanLoop(st.Body, st.Post, st.Cond)
+	li.modVars = append(li.modVars, u.ghostsSetIn(st)...)
 	u.havocLoop(env, li)
 	u.assumeInvariants(env, blk)
 	var res []Outcome
@@ -1303,6 +1314,7 @@ func (u *Unit) execFor(st *ast.ForStmt, env *Env, label string) []Outcome {
 			switch {
 			case o.kind == oNext || (o.kind == oContinue && (o.label == "" || o.label == label)):
 				e := o.env
+				u.runGhostSets(e, blk)
 				if st.Post != nil {
 					po := u.exec(st.Post, e)
 					e = po[0].env
@@ -1362,6 +1374,7 @@ func (u *Unit) execRangeSlice(st *ast.RangeStmt, env *Env, label string, x Value
 	}
 	u.checkInvariants(env, blk, "inv-init", st.Pos(), lname)
 	li := u.scanLoop(st.Body)
+	li.modVars = append(li.modVars, u.ghostsSetIn(st)...)
 	u.havocLoop(env, li)
 	k := u.D.Fresh("k", SInt)
 	env.assume(le(IntLit(0), k))
@@ -1400,6 +1413,8 @@ func (u *Unit) execRangeSlice(st *ast.RangeStmt, env *Env, label string, x Value
 		switch {
 		case o.kind == oNext || (o.kind == oContinue && (o.label == "" || o.label == label)):
 			e := o.env
+			e.alias["_i"] = k
+			u.runGhostSets(e, blk)
 			k1 := add(k, IntLit(1))
 			e.alias["_i"] = k1
 			if kobj != nil {
@@ -1440,6 +1455,7 @@ func (u *Unit) execRangeMap(st *ast.RangeStmt, env *Env, label string, x Value, 
 	env.alias["_i"] = IntLit(0)
 	u.checkInvariants(env, blk, "inv-init", st.Pos(), lname)
 	li := u.scanLoop(st.Body)
+	li.modVars = append(li.modVars, u.ghostsSetIn(st)...)
 	u.havocLoop(env, li)
 	k := u.D.Fresh("k", SInt)
 	env.assume(le(IntLit(0), k))
@@ -1478,6 +1494,8 @@ func (u *Unit) execRangeMap(st *ast.RangeStmt, env *Env, label string, x Value, 
 		switch {
 		case o.kind == oNext || (o.kind == oContinue && (o.label == "" || o.label == label)):
 			e := o.env
+			e.alias["_i"] = k
+			u.runGhostSets(e, blk)
 			e.alias["_i"] = add(k, IntLit(1))
 			u.checkInvariants(e, blk, "inv-keep", st.Pos(), lname)
 		case o.kind == oBreak && (o.label == "" || o.label == label):
